@@ -116,6 +116,7 @@ func proxyPart(r *seq.Run, tier string) {
 	}
 	for _, capset := range []string{"basic", "flusher", "full"} {
 		var rec func(calls []string, script []int)
+		abort := false // the handler leaves by panic(http.ErrAbortHandler) after its calls (the documented way to abort)
 		run := func(calls []string, script []int) {
 			u := &under{hdr: http.Header{}, script: script}
 			var w http.ResponseWriter = u
@@ -214,6 +215,9 @@ func proxyPart(r *seq.Run, tier string) {
 						}
 					}
 				}
+				if abort {
+					panic(http.ErrAbortHandler)
+				}
 			}))
 			req := &http.Request{Method: "GET", URL: &url.URL{Path: "/"}, Header: http.Header{}}
 			// an earlier request served through the same middleware (status 404, 7 body bytes): whatever it leaves
@@ -237,12 +241,19 @@ func proxyPart(r *seq.Run, tier string) {
 					}
 				})).ServeHTTP(pw, req)
 			}
-			h.ServeHTTP(w, req)
+			func() {
+				defer func() {
+					if rec := recover(); rec != nil && rec != http.ErrAbortHandler {
+						panic(rec)
+					}
+				}()
+				h.ServeHTTP(w, req)
+			}()
 			r.Transitions += int64(len(calls))
-			r.Eval(fmt.Sprint(capset, calls, script, gotStatus, gotSize), len(script) > 0)
+			r.Eval(fmt.Sprint(capset, calls, script, abort, gotStatus, gotSize), len(script) > 0)
 			wantStatus := refStatus
 			if called != 1 || gotStatus != wantStatus || gotSize != refSize || gotSize != u.accepted {
-				r.Violation("", fmt.Sprintf("proxy/%s/%v", capset, gotStatus == wantStatus), fmt.Sprintf("capabilities=%s calls=%v answers=%v: AccessHandler reported (status=%d,size=%d) x%d, reference (status=%d,size=%d); underlying writer saw codes %v and accepted %d bytes", capset, calls, script, gotStatus, gotSize, called, wantStatus, refSize, u.codes, u.accepted), fmt.Sprint(capset, calls, script))
+				r.Violation("", fmt.Sprintf("proxy/%s/%v", capset, gotStatus == wantStatus), fmt.Sprintf("capabilities=%s calls=%v answers=%v abort=%v: AccessHandler reported (status=%d,size=%d) x%d, reference (status=%d,size=%d); underlying writer saw codes %v and accepted %d bytes", capset, calls, script, abort, gotStatus, gotSize, called, wantStatus, refSize, u.codes, u.accepted), fmt.Sprint(capset, calls, script, abort))
 			}
 			if len(u.codes) > 0 && wantStatus != 0 && u.codes[0] != wantStatus {
 				r.Violation("", "proxy/forwarded-code", fmt.Sprintf("capabilities=%s calls=%v: the underlying writer was sent %v, the first WriteHeader/implicit 200 is %d", capset, calls, u.codes, wantStatus), fmt.Sprint(capset, calls))
@@ -250,6 +261,12 @@ func proxyPart(r *seq.Run, tier string) {
 		}
 		rec = func(calls []string, script []int) {
 			run(calls, script)
+			if len(calls) <= 2 {
+				// what was sent before the handler aborted is reported all the same
+				abort = true
+				run(calls, script)
+				abort = false
+			}
 			if len(calls) == L {
 				return
 			}
